@@ -4,11 +4,17 @@
    independent record grammar of Model/Wire.v prescribes: whenever the raw decoder accepts and the grammar segments the stream
    at all (no record straddles the end of its data region, which the grammar rejects and the decoders tolerate), both give the
    same segments (C16_lengths; record by record the two are the same function while the raw decoder's reads succeed).
-   The agreement with the full decoder is decided by the Go oracle (same series of definitions and data messages whenever the
-   full decoder accepts): C16_agree is not yet a theorem. *)
+   Agreement with the full decoder (C16_agree): whenever the model of the full decoder (Model/Decoder.v, any options -- checksum
+   verified or ignored, expansion on or off -- and any read-buffer size) decodes a byte string and its sequences account for
+   every byte (sum over the file headers of header size + data size + 2 >= length: the decoder tolerates a cut-off header
+   after a complete sequence, the raw decoder reports it), the raw decoder model accepts the string and its segments are, one
+   for one and in order, the full decoder's events: file header (size, data size), message definition (header byte hence local
+   number, reserved, architecture, global number, field and developer field definitions), message data (header byte), CRC.
+   Hence also the same number of sequences (C16_same_sequence_count).  Both models are tied to the Go code by differential
+   execution, and the Go oracle compares the two Go decoders directly on every run. *)
 From Coq Require Import NArith List Bool.
 Import ListNotations.
-From Fit Require Import Model.Raw Model.Crc Run.RunC16 Proofs.RawProofs Proofs.RawWire.
+From Fit Require Import Model.Decoder Model.Raw Model.Crc Run.RunC16 Proofs.RawProofs Proofs.RawWire Proofs.DecoderWire.
 Open Scope N_scope.
 
 Theorem C16_concat : forall bs, result_ok bs (raw_decode bs).
@@ -23,6 +29,24 @@ Theorem C16_lengths : forall bs, bytes_ok bs -> len bs < 4294967296 ->
   let '(segs, n, e) := raw_decode bs in check_wire (bs, segs, n, e) = true.
 Proof. exact raw_lengths_are_the_grammar. Qed.
 Print Assumptions C16_lengths.
+
+Theorem C16_agree : forall c bs fits evs, bytes_ok bs ->
+  decode_all (S (length bs)) c (init_state bs) [] = (Ok fits, evs) -> len bs <= covered evs ->
+  exists segs n, raw_decode bs = (segs, n, None) /\ items_agree evs segs.
+Proof. exact decoder_raw_agree. Qed.
+Print Assumptions C16_agree.
+
+Theorem C16_same_sequence_count : forall evs segs, items_agree evs segs ->
+  length (filter (fun e => match e with EvHeader _ => true | _ => false end) evs)
+  = length (filter (fun sg => match fst sg with RFHeader => true | _ => false end) segs).
+Proof. exact same_sequence_count. Qed.
+Print Assumptions C16_same_sequence_count.
+
+(* the hypotheses of C16_agree are satisfiable: the full decoder model accepts this stream and accounts for all 27 bytes *)
+Example C16_agree_instance :
+  let bs := [14; 32; 0; 0; 11; 0; 0; 0; 46; 70; 73; 84; 0; 0; 64; 0; 0; 0; 0; 1; 0; 1; 0; 0; 4; 9; 9] in
+  exists fits evs, decode_all (S (length bs)) (mkcfg false true 4096) (init_state bs) [] = (Ok fits, evs) /\ length fits = 1%nat /\ len bs <= covered evs.
+Proof. eexists. eexists. split; [vm_compute; reflexivity|]. split; [reflexivity|vm_compute; discriminate]. Qed.
 
 Example C16_instance : exists segs, raw_decode [14; 32; 0; 0; 11; 0; 0; 0; 46; 70; 73; 84; 0; 0; 64; 0; 0; 0; 0; 1; 0; 1; 0; 0; 4; 9; 9] = (segs, 27, None) /\ length segs = 4%nat.
 Proof. eexists. split; [vm_compute; reflexivity|reflexivity]. Qed.
